@@ -42,7 +42,7 @@ int main(int argc, char **argv) {
 }
 """
 
-SAN = ["-fsanitize=address", "-fsanitize=bounds,object-size,null,alignment,vla-bound,pointer-overflow",
+SAN = ["-fsanitize=address", "-fsanitize=bounds,object-size,null,alignment,vla-bound,pointer-overflow,shift,signed-integer-overflow",
        "-fno-sanitize-recover=all", "-fno-omit-frame-pointer", "-g"]
 
 
